@@ -546,6 +546,11 @@ func (p *parser) parseMulExpr() Expr {
 
 func (p *parser) parseUnary() Expr {
 	t := p.peek()
+	if t.kind == "op" && t.text == "&" {
+		p.p++
+		x := p.parseUnary()
+		return &EUnary{"&", x}
+	}
 	if t.kind == "op" && (t.text == "!" || t.text == "-") {
 		p.p++
 		x := p.parseUnary()
